@@ -12,6 +12,11 @@ from vlib import core  # noqa: E402
 def main():
     prop, tier, seed, outfile, params_json = sys.argv[1:6]
     only_case = json.loads(sys.argv[6]) if len(sys.argv) > 6 else None
+    from vlib import sched  # (does not import the library)
+
+    if prop in sched.COOP_PROPS:
+        assert "spec_classes" not in sys.modules
+        sched.patch_threading_for_library()
     mod = core.load_check(prop)
     res = core.run_shard_inprocess(
         mod, tier, int(seed), json.loads(params_json), only_case=only_case
